@@ -1118,7 +1118,7 @@ class System:
             # update subsystem current/power/loss/efficiency/energy
             for d in range(len(sources)):
                 src = list(sources.keys())[d]
-                idx = df[df.Component == "Subsystem {}".format(src)].index[0]
+                idx = df[df.Component == "Subsystem {}".format(src)].index[-1]
                 curr = df[(df.Domain == src) & (df.Type == "SOURCE")][
                     "Iout (A)"
                 ].values[0]
